@@ -1,0 +1,48 @@
+//go:build verif
+
+package build
+
+import (
+	"archive/tar"
+	"context"
+	"io"
+	"io/fs"
+	"os"
+
+	v1 "github.com/google/go-containerregistry/pkg/v1"
+
+	apkfs "chainguard.dev/apko/pkg/apk/fs"
+)
+
+// VerifC06File is what walkFS yields for one path (verification hook, C06).
+type VerifC06File struct {
+	Path   string
+	Info   fs.FileInfo
+	Header *tar.Header
+}
+
+// VerifC06WalkFS collects everything walkFS yields.
+func VerifC06WalkFS(ctx context.Context, fsys apkfs.FullFS) ([]VerifC06File, error) {
+	var out []VerifC06File
+	for f, err := range walkFS(ctx, fsys) {
+		if err != nil {
+			return out, err
+		}
+		out = append(out, VerifC06File{Path: f.path, Info: f.info, Header: f.header})
+	}
+	return out, nil
+}
+
+// VerifC06WriteTar runs writeTar into w.
+func VerifC06WriteTar(ctx context.Context, w io.Writer, fsys apkfs.FullFS) error {
+	return writeTar(ctx, tar.NewWriter(w), fsys)
+}
+
+// VerifC06WriteLayer runs newLayerWriter + writeTar + finalize on out.
+func VerifC06WriteLayer(ctx context.Context, out *os.File, fsys apkfs.FullFS) (v1.Layer, error) {
+	lw := newLayerWriter(out)
+	if err := writeTar(ctx, lw.w, fsys); err != nil {
+		return nil, err
+	}
+	return lw.finalize()
+}
